@@ -291,3 +291,5 @@ MUTANTS.append(Mutant("nameplates-list-or-set", RDV, "        self._L.rx_namepla
 MUTANTS.append(Mutant("del-M-S4-got_mailbox", _M, "    S4.upon(got_mailbox, enter=S4, outputs=[])\n", "", "C14.R1",
                       "finding F21 put back: close() from the wordlist callback, then got_mailbox"))
 MUTANTS.append(Mutant("dequeue-del-absent-key", _M, "        self._pending_outbound.pop(phase, None)", "        del self._pending_outbound[phase]", "C14.R8", "seed C14-17"))
+
+MUTANTS.append(Mutant("status-callout-before-lost", "src/wormhole/_rendezvous.py", "        was_open = bool(self._ws)\n        self._ws = None\n", "        was_open = bool(self._ws)\n        self._ws = None\n        self._evolve_status(mailbox_connection=Connecting(self._url, self._reactor.seconds()))\n", "C14.R9", "seed C14-18"))
